@@ -1,3 +1,4 @@
+#![feature(get_mut_unchecked)]
 //! cactus-sim: deterministic simulation of cactusref with fault injection.
 //!
 //!   cactus-sim batch  --profile C01 --seed S --from A --to B [--thorough] [--digests] [--distinct-out F]
@@ -316,6 +317,9 @@ fn script_candidates(snap: &DtorSnap, rng: &mut Rng, fresh: &mut Id) -> Vec<Vec<
     for i in 0..snap.own_slots.len() {
         c.push(vec![Op::SelfDropSlot { idx: i as Id }]);
         c.push(vec![Op::SelfDowngradeSlot { idx: i as Id, w: id(fresh) }]);
+        c.push(vec![Op::SelfGetMutSlot { idx: i as Id }]);
+        // ... also with Weak handles to that peer outstanding (taken from the same stored handle)
+        c.push(vec![Op::SelfDowngradeSlot { idx: i as Id, w: id(fresh) }, Op::SelfDowngradeSlot { idx: i as Id, w: id(fresh) }, Op::SelfGetMutSlot { idx: i as Id }]);
     }
     // drop every program handle: the strongest "last handle of another group" case
     if snap.handles.len() > 1 {
@@ -1110,8 +1114,16 @@ fn after_big_cmd(a: &Args) -> i32 {
             return 1;
         }
     };
+    // the same question for the history of one object: a former hub (0 = fresh member)
+    let hubs: Vec<String> = [0usize, 10, 100, 10_000, 100_000]
+        .iter()
+        .map(|&k| {
+            let (b, a, d) = alloc::sut(|| scale::former_hub_cost(k));
+            format!("{{\"leaves\":{k},\"bytes\":{b},\"allocs\":{a},\"ring_destroyed\":{d}}}")
+        })
+        .collect();
     let f = |v: &Vec<scale::SmallCost>| v.iter().map(|c| format!("{{\"bytes\":{},\"allocs\":{},\"pops\":{},\"scanned\":{},\"destroyed\":{}}}", c.bytes, c.allocs, c.pops, c.scanned, c.destroyed)).collect::<Vec<_>>().join(",");
-    out(&format!("{{\"type\":\"after-big\",\"big_n\":{},\"big_destroyed\":{},\"before\":[{}],\"after\":[{}]}}\n", big.n, big.destroyed, f(&before), f(&after)));
+    out(&format!("{{\"type\":\"after-big\",\"big_n\":{},\"big_destroyed\":{},\"before\":[{}],\"after\":[{}],\"former_hub\":[{}]}}\n", big.n, big.destroyed, f(&before), f(&after), hubs.join(",")));
     0
 }
 
@@ -1190,6 +1202,17 @@ fn threads_cmd(a: &Args) -> i32 {
     let bad = scale::threads(t, rounds, a.num("--seed", 1));
     let f: Vec<String> = bad.iter().map(|(ti, r, what)| format!("{{\"thread\":{ti},\"round\":{r},\"what\":\"{}\"}}", json_escape(what))).collect();
     out(&format!("{{\"type\":\"threads\",\"threads\":{t},\"rounds\":{rounds},\"failures\":[{}]}}\n", f.join(",")));
+    0
+}
+
+fn allocfail_cmd(a: &Args) -> i32 {
+    let k = a.num("--n", 4) as usize;
+    let chords = a.num("--chords", 0) as usize;
+    let at = a.num("--at", 0) as isize;
+    shared::init();
+    alloc::reset(1, false);
+    let (destroyed, n, fired) = alloc::sut(|| scale::alloc_fail(k, chords, at, a.num("--seed", 1)));
+    out(&format!("{{\"type\":\"allocfail\",\"n\":{n},\"destroyed\":{destroyed},\"fired\":{fired},\"at\":{at}}}\n"));
     0
 }
 
@@ -1292,6 +1315,7 @@ fn main() {
         "replay" => replay(&a),
         "scale" => scale_cmd(&a),
         "soak" => soak_cmd(&a),
+        "allocfail" => allocfail_cmd(&a),
         "threads" => threads_cmd(&a),
         "held" => held_cmd(&a),
         "nested" => nested_cmd(&a),
